@@ -8,6 +8,8 @@ from ..probe import call
 from ..ref import bits
 
 LEVEL = "exploration"
+TECHNIQUE = 'runtime monitoring: exception-type, shape-predicate, guard-domain and routing monitors over the DF x TC x subtype matrix for every public callable incl. tell()'
+LEVEL_TEXT = 'Exploration over the full cell matrix with all-zero/all-one/random/reserved payloads; shapes and domains are transcribed from docstrings and error messages.'
 LEVEL_RULE = (
     "Every public callable (adsb.__all__, commb.__all__, surv, allcall, message-taking common functions, bds.infer, "
     "bds.is50or60, decoder.uplink.*, tell) called on well-formed frames covering the full DF(32) x TC(32) x subtype(8) "
